@@ -11,11 +11,15 @@ def main():
     import radioactivedecay as rd
     from radioactivedecay.nuclide import _build_decay_digraph
     D = rd.DEFAULTDATA
+    import os
+    if os.environ.get("VERIF_DIGRAPH_DS") == "synth":
+        from radioactivedecay.decaydata import load_dataset
+        D = load_dataset("synth", os.environ["VERIF_SYNTH_DIR"], load_sympy=True)
     out = []
     for name in D.nuclides:
         name = str(name)
         try:
-            g, maxgen, maxx = _build_decay_digraph(rd.Nuclide(name), nx.DiGraph())
+            g, maxgen, maxx = _build_decay_digraph(rd.Nuclide(name, D), nx.DiGraph())
         except Exception as e:
             out.append(f"ROOT {s(name)}\nERR {type(e).__name__}")
             continue
@@ -33,7 +37,7 @@ def main():
         names = [str(x) for x in D.nuclides]
         step = max(1, len(names) // int(sys.argv[2]))
         for name in names[::step]:
-            nuc = rd.Nuclide(name)
+            nuc = rd.Nuclide(name, D)
             g, _, _ = _build_decay_digraph(nuc, nx.DiGraph())
             fig, ax = nuc.plot()
             texts = sorted(t.get_text() for t in ax.texts)
